@@ -39,9 +39,35 @@ def make_pool(seed, n):
         elif k == 'decode':
             ops.append({'op': k, 'data': bytes(wire.any_frame(rnd).data)})
         elif k == 'decode_bad':
-            fr = wire.any_frame(rnd)
-            muts = [b for b, _ in faults.field_rewrites(fr, rnd)] or \
-                [bytes(fr.data[:-1])]
+            # failures born at many different depths of the decoder: the
+            # envelope, the method index, an argument, a table key, a table
+            # value, a nested array, a timestamp, the header flag words
+            if rnd.random() < 0.5:
+                fr = wire.method_frame(rnd, refspec.METHODS[rnd.choice(
+                    wire.TABLE_METHODS)], allow_refuse=False,
+                    force_tags=[rnd.choice([b'S', b'A', b'F', b'T', b'D',
+                                            b'x', b'l'])])
+            else:
+                fr = wire.header_frame(rnd, allow_refuse=False,
+                                       mask=rnd.getrandbits(14) | 4)
+            inj = rnd.choice(['trunc', 'trunc', 'tag', 'utf8', 'field',
+                              'field', 'refuse'])
+            if inj == 'trunc':
+                muts = [b for b, _ in faults.inner_truncations(fr, rnd, 40)]
+            elif inj == 'tag':
+                muts = [b for b, _ in faults.unknown_tags(fr, rnd)][:40]
+            elif inj == 'utf8':
+                muts = [b for b, _ in faults.bad_utf8(fr, rnd)]
+            elif inj == 'refuse':
+                muts = [bytes(wire.method_frame(
+                    rnd, refspec.METHODS[rnd.choice(wire.TABLE_METHODS)],
+                    allow_refuse=True, force_tags=[b'T', b'T', b'T']).data)]
+            else:
+                muts = [b for b, lab in faults.field_rewrites(fr, rnd)
+                        if lab in ('field:table-len', 'field:array-len',
+                                   'field:str-len', 'field:key-len',
+                                   'field:flag-word')]
+            muts = muts or [bytes(fr.data[:-1])]
             ops.append({'op': 'decode', 'data': rnd.choice(muts)})
         else:
             idx = rnd.choice(idxs)
